@@ -52,36 +52,54 @@ def run(prop, tier, seed, scratch, t0):
     os.makedirs(tdir, exist_ok=True)
     trace = os.path.join(tdir, "trace.ndjson")
     d = vlib.run_driver(binary, "TestRelayTrace", dict(VERIF_TRACE_OUT=trace, VERIF_TRACES=traces, VERIF_TRACE_WORKERS=tw,
-                                                       VERIF_TRACE_OPS=tops, VERIF_SEED=seed), scratch, "rtrace", timeout=3000)
+                                                       VERIF_TRACE_OPS=tops, VERIF_SEED=seed), scratch, "rtrace", timeout=600, crash_prop="C18")
     dr.append(d)
     nenv = tw * tops + 1
-    rt = vlib.tlc(scratch, "RelayTrace", TCFG % (names("a", nenv), names("b", nenv), names("c", 2 * tw) + ', "cz"'),
-                  name="RelayTrace", workers=1, timeout=3000)
-    rt_out = rt["out"]
-    rt["out"] = ""
-    tl.append(rt)
     viol = [v for x in dr for v in x["violations"]]
     validated = traces
-    if not rt["ok"]:
+    rt = None
+    if d.get("_rc", 0) == 0:  # (a driver that died inside the library has no complete log: its crash is the report)
+        rt = vlib.tlc(scratch, "RelayTrace", TCFG % (names("a", nenv), names("b", nenv), names("c", 2 * tw) + ', "cz"'),
+                      name="RelayTrace", workers=1, timeout=3000)
+        rt_out = rt["out"]
+        rt["out"] = ""
+        tl.append(rt)
+    else:
+        validated = 0
+    if rt is not None and not rt["ok"]:
         if "ostcondition" not in (rt["violated"] or ""):
             raise vlib.Inconclusive("TLC failed on RelayTrace: %s" % rt["violated"])
-        # no linearisation explains the recorded execution: find the trace by the depth reached
-        m = re.search(r"depth of the complete state graph search is (\d+)", rt_out)
+        # no linearisation explains a recorded execution: cut it out of the log by the high-water mark of matched lines
+        m = re.search(r"high-water mark\D+(\d+)", rt_out)
         rp = os.path.join(scratch, "replays")
         os.makedirs(rp, exist_ok=True)
         dst = os.path.join(rp, "C18-rejected-trace.ndjson")
-        shutil.copyfile(trace, dst)
+        lines = [ln for ln in open(trace) if ln.strip()]
+        lo = hi = min(int(m.group(1)), len(lines)) - 1 if m else 0
+        while lo > 0 and '"ev":"reset"' not in lines[lo - 1].replace(" ", ""):
+            lo -= 1
+        while hi < len(lines) - 1 and '"ev":"reset"' not in lines[hi].replace(" ", ""):
+            hi += 1
+        with open(dst, "w") as f:
+            f.writelines(lines[lo:hi + 1] if m else lines)
+        ops = []
+        for ln in lines[lo:hi + 1]:
+            e = json.loads(ln)
+            if e.get("ev") == "call":
+                ops.append("%s(%s%s)" % (e["op"], e.get("a1", ""), "," + e["a2"] if e.get("a2") else ""))
         viol.append(dict(property="C18", kind="monitor", sig="trace-rejected",
                          what="a recorded concurrent execution of the real relay is not explained by any linearisation of "
                               "Relay.tla (results of the operations and final bags of envelopes per consumer/default handler); "
-                              "TLC matched the log up to search depth %s" % (m.group(1) if m else "?"), replay=dst))
+                              "operations of the rejected trace: %s; TLC matched the log up to line %s" %
+                              (" ".join(ops)[:600], m.group(1) if m else "?"), replay=dst))
         validated = 0
     # negative control of the binding: one recorded trace with one delivered envelope removed must be rejected
     neg = "skipped (validation failed)"
-    if rt["ok"]:
+    if rt is not None and rt["ok"]:
         neg = negative_control(scratch, trace, tdir, nenv, tw)
     # (c) stress
-    ds = vlib.run_driver(binary, "TestRelayStress", dict(VERIF_STRESS_ROUNDS=rounds, VERIF_SEED=seed), scratch, "rstress", timeout=3000)
+    ds = vlib.run_driver(binary, "TestRelayStress", dict(VERIF_STRESS_ROUNDS=rounds, VERIF_SEED=seed), scratch, "rstress", timeout=1200,
+                         crash_prop="C18")
     dr.append(ds)
     viol += ds["violations"]
     counts = vlib.merge_counts(dr)
